@@ -145,8 +145,45 @@ func ruleHlogIsolation(r *Run, p *Prog) {
 			}
 		})
 	}
-	if nUpd < 14 {
-		r.Fail("ISOL", "UpdateContext-sites", "-", fmt.Sprintf("only %d UpdateContext call sites found in hlog (14 field handlers expected)", nUpd))
+	// every field handler of the package's API still reaches an UpdateContext site (judged above);
+	// handlers may share one site through a private constructor
+	fieldHandlers := []string{"URLHandler", "MethodHandler", "RequestHandler", "RemoteAddrHandler", "RemoteIPHandler", "UserAgentHandler",
+		"RefererHandler", "ProtoHandler", "HTTPVersionHandler", "RequestIDHandler", "CustomHeaderHandler", "EtagHandler", "ResponseHeaderHandler", "HostHandler"}
+	for _, hn := range fieldHandlers {
+		hf := p.Func("hlog", hn)
+		if !r.Anchor(hf != nil, "ISOL", "hlog."+hn) {
+			continue
+		}
+		seen := map[*ssa.Function]bool{}
+		found := false
+		var visit func(g *ssa.Function, depth int)
+		visit = func(g *ssa.Function, depth int) {
+			if g == nil || seen[g] || depth > 6 || g.Blocks == nil {
+				return
+			}
+			seen[g] = true
+			eachInstr(g, func(b *ssa.BasicBlock, i int, in ssa.Instruction) {
+				if cc := callCommon(in); cc != nil {
+					if sc := staticCallee(cc); sc != nil {
+						if sc == upd {
+							found = true
+						} else if pkgRel(sc) == "hlog" {
+							visit(sc, depth+1)
+						}
+					}
+				}
+				if mc, ok := in.(*ssa.MakeClosure); ok {
+					if fn, ok := mc.Fn.(*ssa.Function); ok {
+						visit(fn, depth+1)
+					}
+				}
+			})
+		}
+		visit(hf, 0)
+		r.Ob("ISOL", "hlog."+hn+"/adds-its-field", p.Pos(hf.Pos()), found, true, tern(found, "the handler reaches an UpdateContext call on the request's logger", hn+" no longer updates the request's logger: its field is missing from the request's events"))
+	}
+	if nUpd < 1 {
+		r.Fail("ISOL", "UpdateContext-sites", "-", "no UpdateContext call site found in hlog")
 	}
 	// NewHandler
 	nh := p.Func("hlog", "NewHandler")
@@ -268,10 +305,7 @@ func ruleProxy(r *Run, p *Prog) {
 	}
 	// who stores code / wroteHeader / bytes
 	whSet := p.exclusiveHelpers(wh)
-	cntSet := p.exclusiveHelpers(wr)
-	for g := range p.exclusiveHelpers(rf) {
-		cntSet[g] = true
-	}
+	cntSet := p.exclusiveHelpers(wr, rf)
 	for _, f := range p.ModFns {
 		if pkgRel(f) != mutilRel {
 			continue
@@ -368,9 +402,9 @@ func ruleProxy(r *Run, p *Prog) {
 				if name, val := fieldOf(in); name == "bytes" && under != nil {
 					addAt = idx
 					if bo, ok := val.(*ssa.BinOp); ok && bo.Op == token.ADD {
-						cnt := bo.Y
+						cnt := pa.Resolve(bo.Y)
 						if cv, isCv := cnt.(*ssa.Convert); isCv {
-							cnt = cv.X
+							cnt = pa.Resolve(cv.X)
 						}
 						if ex, isEx := cnt.(*ssa.Extract); isEx && ex.Tuple == ssa.Value(under) && ex.Index == 0 {
 							if fv, _ := loadedField(bo.X); fv != nil && fname(fv) == "bytes" {
@@ -427,13 +461,27 @@ func ruleProxy(r *Run, p *Prog) {
 	if r.Anchor(ah != nil, "PROXY", "hlog.AccessHandler") {
 		var all []*ssa.Function
 		var collect func(f *ssa.Function)
+		seenAll := map[*ssa.Function]bool{}
 		collect = func(f *ssa.Function) {
+			if seenAll[f] {
+				return
+			}
+			seenAll[f] = true
 			all = append(all, f)
 			for _, a := range f.AnonFuncs {
 				collect(a)
 			}
 		}
 		collect(ah)
+		// … and the private helpers only AccessHandler's closures use (with their own closures)
+		var helpers []*ssa.Function
+		for g := range p.exclusiveHelpers(ah) {
+			helpers = append(helpers, g)
+		}
+		sort.Slice(helpers, func(i, j int) bool { return helpers[i].String() < helpers[j].String() })
+		for _, g := range helpers {
+			collect(g)
+		}
 		var served ssa.Value
 		var servedIn *ssa.Function
 		for _, f := range all {
@@ -548,6 +596,7 @@ func ruleA24(r *Run, p *Prog) {
 		// guards at the construction site
 		guards := map[string]bool{}
 		nCons := 0
+		ww := p.View(ww, "", nil)
 		eachInstr(ww, func(b *ssa.BasicBlock, i int, in ssa.Instruction) {
 			al, ok := in.(*ssa.Alloc)
 			if !ok || namedOf(al.Type()) != named {
@@ -571,6 +620,9 @@ func ruleA24(r *Run, p *Prog) {
 		})
 		// unchecked assertions in the type's methods
 		for _, m := range p.Methods(mutilRel, tn, false) {
+			// judged with private helpers inlined (a shared "flush the proxied writer" helper of the
+			// embedded basicWriter is part of each method that calls it)
+			m = p.View(m, "", nil)
 			eachInstr(m, func(b *ssa.BasicBlock, i int, in ssa.Instruction) {
 				ta, ok := in.(*ssa.TypeAssert)
 				if !ok || ta.CommaOk {
